@@ -1,6 +1,7 @@
 #!/usr/bin/env python3
 """setup_cmd: offline sanity of the tool chain; parses every spec with SANY."""
 import os, subprocess, sys, shutil, tempfile
+sys.path.insert(0, os.path.dirname(os.path.abspath(__file__)))
 ROOT = os.path.dirname(os.path.dirname(os.path.abspath(__file__)))
 def main():
     for tool in ("java", "go", "go1.26.8", "rsync", "python3"):
@@ -27,6 +28,8 @@ def main():
     finally:
         shutil.rmtree(d, ignore_errors=True)
     os.makedirs(os.path.join(ROOT, "evidence"), exist_ok=True)
+    import vlib
+    vlib.ensure_instr()
     print("setup ok" if not bad else "setup FAILED")
     sys.exit(1 if bad else 0)
 if __name__ == "__main__":
